@@ -37,6 +37,9 @@ type C05Params struct {
 	ServerFirst bool // server sends its payload right after accept, before reading anything
 	ClientFin   bool // true: the client half-closes first (after its data); false: the server half-closes first
 	ReadChunk   int  // MaxRead on the dae-side client conn (0 = whole segments)
+	ClientTail  []byte // with ClientFin=false: bytes the client still sends AFTER it has observed the upstream's end-of-stream
+	// (the opposite direction must keep flowing after a half-close), followed by the client's own half-close
+	NoDnsController bool // the control plane has no DNS controller (port-53 detection cannot hand the query to it)
 }
 
 type c05Obs struct {
@@ -61,6 +64,10 @@ type c05Obs struct {
 	serverEndAt, clientEndAt int64
 	now        func() int64
 }
+
+// C05DemandFirstWriteShutdownAtClient switches on the oracle component "the upstream's end-of-stream, when it is the first of the
+// two, reaches the client socket as a CloseWrite" (a genuine finding on /repo 0745d7c, see /verif/.work/C05-finding.md).
+var C05DemandFirstWriteShutdownAtClient bool
 
 var c05Cur *c05Obs
 var c05Routing *VerifRouting
@@ -116,6 +123,9 @@ func c05ControlPlane(o *c05Obs, mode string) (*ControlPlane, error) {
 	cp.dialMode = dm
 	cp.routingMatcher = v.Matcher
 	cp.bootstrapResolvers = []netip.AddrPort{netip.MustParseAddrPort("192.0.2.53:53")}
+	if o.p.NoDnsController {
+		return cp, nil
+	}
 	dc, err := NewDnsController(nil, &DnsControllerOption{
 		Log:              log,
 		LifecycleContext: ctx,
@@ -189,6 +199,11 @@ func C05Scenario(p *C05Params) *vsched.Scenario {
 				c05ReadAll(lb, &o.clientGot, &o.clientEOF, &o.clientErr, &o.clientEndAt)
 			} else {
 				c05ReadAll(lb, &o.clientGot, &o.clientEOF, &o.clientErr, &o.clientEndAt)
+				if len(p.ClientTail) > 0 {
+					if _, err := lb.Write(p.ClientTail); err != nil && o.clientErr == "" {
+						o.clientErr = "write after upstream end-of-stream: " + err.Error()
+					}
+				}
 				lb.CloseWrite()
 			}
 		}()
@@ -228,7 +243,9 @@ func C05Scenario(p *C05Params) *vsched.Scenario {
 		}()
 		vsched.WaitUntil(func() bool { return o.handleDone && o.clientDone && o.serverDone })
 		cp.cancel()
-		_ = cp.dnsController.Close()
+		if cp.dnsController != nil {
+			_ = cp.dnsController.Close()
+		}
 	}
 	check := func(r *vsched.Result) (string, any) {
 		o := c05Cur
@@ -241,10 +258,11 @@ func C05Scenario(p *C05Params) *vsched.Scenario {
 		if !(o.handleDone && o.clientDone && o.serverDone) {
 			return "deadlock/stall: " + strings.Join(r.Blocked, "; "), nil
 		}
-		want := bytes.Join(p.ClientSegs, nil)
+		want := append(bytes.Join(p.ClientSegs, nil), p.ClientTail...)
 		wantBack := bytes.Join(p.ServerSegs, nil)
 		detail := map[string]any{"client_sent": string(want), "server_got": string(o.serverGot), "server_sent": string(wantBack), "client_got": string(o.clientGot),
-			"client_err": o.clientErr, "server_err": o.serverErr, "handle_err": fmt.Sprint(o.handleErr), "dial_after_ms": (o.dialAt - o.start) / 1e6, "read_deadline_at_dial": o.dlAtDial.String()}
+			"client_err": o.clientErr, "server_err": o.serverErr, "handle_err": fmt.Sprint(o.handleErr), "dial_after_ms": (o.dialAt - o.start) / 1e6, "read_deadline_at_dial": o.dlAtDial.String(),
+			"client_closewrites_by_dae": o.lc.CloseWrites, "client_eof_after_ms": (o.clientEndAt - o.start) / 1e6, "server_eof_after_ms": (o.serverEndAt - o.start) / 1e6}
 		if o.dials != 1 {
 			return fmt.Sprintf("upstream dialled %d times", o.dials), detail
 		}
@@ -269,6 +287,15 @@ func C05Scenario(p *C05Params) *vsched.Scenario {
 		}
 		if !o.clientEOF && !r2lExcused {
 			return "upstream end-of-stream was not passed on to the client as a write-shutdown (client saw: " + o.clientErr + ")", detail
+		}
+		// "End of stream on one side is passed on as a write-shutdown to the other while the opposite direction keeps
+		// flowing": demanded where the peer can tell a write-shutdown from a full close, i.e. for the FIRST of the two
+		// end-of-streams, observed on the outermost (simulated) sockets whatever wrapper stack dae put around them.
+		if C05DemandFirstWriteShutdownAtClient && !p.ClientFin && !r2lExcused && o.lc.CloseWrites == 0 {
+			return "upstream end-of-stream (first half-close) was not passed on to the client as a write-shutdown: no CloseWrite on the client socket, the client saw end-of-stream only when the relay closed the connection", detail
+		}
+		if p.ClientFin && !l2rExcused && o.ua != nil && o.ua.CloseWrites == 0 {
+			return "client end-of-stream (first half-close) was not passed on to the upstream as a write-shutdown: no CloseWrite on the upstream socket", detail
 		}
 		// detection windows: DNS first-read window on port 53, prefetch + sniffer windows otherwise, plus routing lookup retries
 		allowed := int64(50 * time.Millisecond)
